@@ -275,10 +275,14 @@ Definition encode_record_on (ser : serializer) (rec : record) (buffer : bytes) :
   '(buf, pos) <-- encode_env (s_env_locs ser) (s_env_keys ser) fields buf pos ;;
   if (pos =? length buf)%nat then Ok (buf, O) else Ok (buf, pos).
 
-(* SerializeRecord with a fresh (zeroed) buffer: packer.buffer[:length] *)
-Definition serialize_record (ser : serializer) (rec : record) : outcome bytes :=
-  '(buf, e) <-- encode_record_on ser rec (repeat 0 (s_buflen ser)) ;;
+(* SerializeRecord on the serializer's buffer as the previous records left it: packer.buffer[:length] *)
+Definition serialize_record_from (ser : serializer) (rec : record) (buffer : bytes) : outcome bytes :=
+  '(buf, e) <-- encode_record_on ser rec buffer ;;
   src_slice buf 0 e.
+
+(* ... and on a fresh, zeroed buffer (what the correspondence run evaluates; the theorems hold for any contents) *)
+Definition serialize_record (ser : serializer) (rec : record) : outcome bytes :=
+  serialize_record_from ser rec (repeat 0 (s_buflen ser)).
 
 (* ---------- correspondence entry point ----------
    kind 0: a sequence of records through the same serializers.
